@@ -12,7 +12,7 @@ An operation is a jsonable dict:
          {'op':'count','ent'} {'op':'todict','oid'}
 `Engine.step(op)` (mixed into hist.Engine by `install`) returns an outcome string.
 """
-import copy, sys
+import copy, re, sys
 
 from vlib import hmodel
 from vlib.hist import Engine, HarnessSkip, DEL_STATUSES
@@ -449,6 +449,23 @@ def _tx(self, op):
             if one is not None:
                 self.unflushed.discard(one)
                 self.pending_dups = bool(self.working.dups())
+                # the database now holds this object's current row (used to recognise the delete-order finding)
+                try:
+                    import copy
+                    if self.dbstate is None: self.dbstate = self.committed.copy()
+                    if one in self.working.objs:
+                        todo = [one]; seen = set()
+                        while todo:      # obj.flush() saves the new objects it refers to first
+                            x = todo.pop()
+                            if x in seen or x not in self.working.objs: continue
+                            seen.add(x)
+                            self.dbstate.objs[x] = copy.deepcopy(self.working.objs[x])
+                            ox = self.working.objs[x]
+                            for n, a in self.rules.ents[ox.ent].attrs.items():
+                                v = ox.vals.get(n)
+                                if a.kind == 'ref' and v is not None and v in self.unflushed and v not in self.dbstate.objs: todo.append(v)
+                    else: self.dbstate.objs.pop(one, None)
+                except Exception: pass
                 return 'ok'
             self.unflushed = set()
             self.mod_then_del = set()
@@ -473,12 +490,23 @@ def _tx(self, op):
             dbstate = self.dbstate if self.dbstate is not None else self.committed     # what the database holds (last full flush)
             gone = set(dbstate.objs) - set(self.working.objs)
             referenced = False; referrers = set()
+            # only rows of the table whose DELETE failed matter: other deleted rows may be referenced by rows that are
+            # deleted before them, which is a fine order
+            m = re.match(r'DELETE FROM "([^"]+)"', failed_sql)
+            failed_table = m.group(1) if m else None
+            def table_of(oid_):
+                try:
+                    t = self.cls[dbstate.objs[oid_].ent]._root_._table_
+                    return t if isinstance(t, str) else t[-1]
+                except Exception: return None
             for xo, x in dbstate.objs.items():
                 cls = self.cls[x.ent]
                 for a in cls._attrs_:
                     if a.is_collection or not a.reverse or not a.columns: continue
                     y = x.vals.get(a.name)
-                    if y in gone and (xo in gone or self.working.objs[xo].vals.get(a.name) != y): referenced = True; referrers.add(xo)
+                    if y in gone and (xo in gone or self.working.objs[xo].vals.get(a.name) != y):
+                        if failed_table is not None and table_of(y) != failed_table: continue
+                        referenced = True; referrers.add(xo)
             # the known mechanism: the referring row had a pending UPDATE and was then deleted (its DELETE went to the end
             # of the queue, behind the DELETE of the row it still references in the database)
             mtd = bool(referrers) and all(x in self.mod_then_del for x in referrers)
